@@ -2,6 +2,7 @@
 import os
 import json
 import sqlite3
+import time
 import itertools
 import threading
 from hypothesis import strategies as st
@@ -40,7 +41,16 @@ def schedules(draw):
             # gates inside the store synchronisation as well (before the upsert, before the commit = lock held)
             "sqlgates": store and draw(st.booleans()),
             "constraints": draw(st.booleans()), "fails": fails if draw(st.booleans()) else [0] * b,
-            "default": draw(st.integers(0, 3)), "cycle": True, "seed": draw(st.integers(0, 2 ** 31))}
+            "default": draw(st.integers(0, 3)), "cycle": True, "seed": draw(st.integers(0, 2 ** 31)),
+            # a model that really computes (25 ms of the calling thread's CPU time per call) under a declared time
+            # limit per calculation (option time_out) that every single call respects
+            "cpu": b >= 3 and draw(st.sampled_from([False] * 11 + [True]))}
+
+
+def _burn(seconds):
+    end = time.thread_time() + seconds
+    while time.thread_time() < end:
+        pass
 
 
 def _f(x):
@@ -79,6 +89,8 @@ def run_batch(case, clause, parallel):
         try:
             if k < case["fails"][tag]:
                 raise RuntimeError("injected transient failure")
+            if case.get("cpu"):
+                _burn(0.025)
             return _f(ind.vector)
         finally:
             gate("objective-exit")
@@ -90,6 +102,8 @@ def run_batch(case, clause, parallel):
     ps = [{"name": "a", "bounds": [0.0, 2.0]}, {"name": "b", "bounds": [0.0, 2.0]}]
     cs = [{"name": "f0", "criteria": "minimize"}, {"name": "f1", "criteria": "maximize"}]
     prob = make_problem(ps, cs, ev, constraints=con if case["constraints"] else None)
+    if case.get("cpu"):
+        prob.options["time_out"] = 0.06
     seed_all(case["seed"])
     db = None
     real_connect = sqlite3.connect
@@ -210,7 +224,7 @@ def check_schedule(case, clause="schedule"):
     return {"nt": nt, "classes": ["inflight%d" % min(sched.max_inflight, 4), "reordered" if reordered else "in-order",
                                   "store" if case["store"] else "dummy",
                                   "burst" if any(k == "burst" for _, _, k in sched.trace) else "no-burst"] + (
-                ["sql-gates"] if case.get("sqlgates") else []),
+                ["sql-gates"] if case.get("sqlgates") else []) + (["cpu-bound-model"] if case.get("cpu") else []),
             "branching": list(sched.branching), "trace": [(t, g) for t, g, _ in sched.trace]}
 
 
